@@ -865,7 +865,7 @@ def case_darr(p):
     elif p["kind"] == "dmat":
         from cogent3.evolve.fast_distance import DistanceMatrix
 
-        t = DistanceMatrix({tuple(k): v for k, v in p["dists"]}, invalid=p.get("invalid"))
+        t = DistanceMatrix({tuple(k): fv(v) for k, v in p["dists"]}, invalid=p.get("invalid"))
     elif p["kind"] == "dmat_array":
         from cogent3.evolve.fast_distance import DistanceMatrix
 
@@ -895,7 +895,7 @@ def case_darr(p):
             elif k == "slice":
                 t = t[op[1]:op[2]]
             elif k == "setitem":
-                t[op[1], op[2]] = op[3]
+                t[op[1], op[2]] = fv(op[3])
             elif k == "to_normalized":
                 t = t.to_normalized(by_row=op[1], by_column=not op[1])
             elif k == "row_sum":
@@ -1151,6 +1151,11 @@ def case_result(p):
     return r
 
 
+def fv(v):
+    """a cell value of a case: the string "nan" stands for float("nan")"""
+    return float("nan") if v == "nan" else v
+
+
 def build_value(v):
     """value spec inside a result: plain JSON, or {"$": generator case} for a cogent3 object"""
     if isinstance(v, dict) and "$" in v:
@@ -1187,7 +1192,10 @@ def build_object(c):
     if g == "dmat":
         from cogent3.evolve.fast_distance import DistanceMatrix
 
-        return DistanceMatrix({tuple(k): v for k, v in p["dists"]})
+        t = DistanceMatrix({tuple(k): fv(v) for k, v in p["dists"]})
+        for a, b, v in p.get("set", []):
+            t[a, b] = fv(v)
+        return t
     raise KeyError(g)
 
 
